@@ -41,12 +41,21 @@ FirstBad(ev, mon) ==
     LET bad == {i \in Idx(ev) : ~Holds(mon, ev, i)}
     IN IF bad = {} THEN 0 ELSE CHOOSE i \in bad : \A j \in bad : i <= j
 
+\* the segment a failure is about: the earliest segment that is created and not completed at the failing event
+\* (if there is none: the last one created)
+Unmatched(ev, i) == {j \in 1..i : /\ ev[j].k = "create"
+                                  /\ ~\E m \in (j + 1)..i : ev[m].k = "complete" /\ ev[m].p = ev[j].p}
+AboutPath(ev, b) ==
+    LET um == Unmatched(ev, b)
+        lc == LastCreate(ev, b)
+    IN IF um # {} THEN ev[CHOOSE j \in um : \A m \in um : j <= m].p
+       ELSE IF lc = 0 THEN 0 ELSE ev[lc].p
+
 RunVerdict(r, ln) ==
     \A mon \in Monitors :
         LET b == FirstBad(r.ev, mon)
-            lc == IF b = 0 THEN 0 ELSE LastCreate(r.ev, b)
         IN Monitor(b = 0, [l |-> ln, run |-> r.run, monitor |-> mon, step |-> b,
-                           p |-> IF lc = 0 THEN 0 ELSE r.ev[lc].p])
+                           p |-> IF b = 0 THEN 0 ELSE AboutPath(r.ev, b)])
 
 Verdicts == (pos = 0 /\ phase = "new") => RunVerdict(Trace[run], run)
 \* ---- conformance: how far the log was followed
